@@ -140,9 +140,12 @@ func (env *Env) eval(x ast.Expr) (Val, error) {
 				names := fx.mapHeapNames(a.T)
 				k := fx.mapKeyTerm(m.Key(), i)
 				out := Val{T: m.Elem()}
+				dom := fx.heapVar(env.heap, names[0], "")
+				present := sSel(sSel(dom, a.one()), k)
+				z := fx.zeroVal(m.Elem())
 				for j := range fx.e.leaves(m.Elem()) {
 					hv := fx.heapVar(env.heap, names[1+j], "")
-					out.L = append(out.L, sSel(sSel(hv, a.one()), k))
+					out.L = append(out.L, sIte(present, sSel(sSel(hv, a.one()), k), z.L[j]))
 				}
 				return out, nil
 			}
@@ -259,6 +262,9 @@ func (env *Env) ident(name string) (Val, error) {
 		return Val{T: types.Typ[types.Bool], L: []string{tFalse}}, nil
 	case "nil":
 		return Val{T: types.Typ[types.UntypedNil]}, nil
+	}
+	if name == "result" && len(env.results) > 0 {
+		return env.results[0], nil
 	}
 	if v, ok := env.lookupName(name); ok {
 		return v, nil
@@ -744,6 +750,21 @@ func (env *Env) call(n *ast.CallExpr) (Val, error) {
 			return Val{T: a.T, L: []string{sIte(sLe(a.one(), b.one()), a.one(), b.one())}}, nil
 		}
 		return Val{T: a.T, L: []string{sIte(sLe(a.one(), b.one()), b.one(), a.one())}}, nil
+	case "fv", "local":
+		id, ok := n.Args[0].(*ast.Ident)
+		if !ok {
+			return Val{}, fmt.Errorf("%s(name)", fname)
+		}
+		if v, ok := env.lookupName(id.Name); ok {
+			return v, nil
+		}
+		return Val{}, fmt.Errorf("unknown identifier %q", id.Name)
+	case "typeid":
+		t, err := env.typeExpr(n.Args[0])
+		if err != nil {
+			return Val{}, err
+		}
+		return specVal(intLit(int64(fx.e.tt.id(t)))), nil
 	case "real":
 		a, err := arg(0)
 		if err != nil {
@@ -758,13 +779,20 @@ func (env *Env) call(n *ast.CallExpr) (Val, error) {
 			if err != nil {
 				return Val{}, err
 			}
-			args = append(args, env.idxTerm(a))
+			if a.T != nil && isStruct(a.T) && len(a.L) > 1 {
+				args = append(args, a.L...)
+			} else {
+				args = append(args, env.idxTerm(a))
+			}
 		}
 		if len(args) != len(sd.Args) {
 			return Val{}, fmt.Errorf("spec %s: %d args, want %d", fname, len(args), len(sd.Args))
 		}
+		if err := fx.resolveSpecRet(env, sd); err != nil {
+			return Val{}, err
+		}
 		fx.useSpec(sd)
-		var t types.Type
+		var t types.Type = sd.GoRet
 		switch sd.Ret {
 		case "Bool":
 			t = bt
@@ -831,6 +859,37 @@ func (env *Env) typeExpr(x ast.Expr) (types.Type, error) {
 	return nil, fmt.Errorf("bad type expression")
 }
 
+// resolveSpecRet: a spec function may declare a Go type as its result (e.g. *int64); the SMT sort is its leaf sort
+func (fx *FnExec) resolveSpecRet(env *Env, sd *SpecDecl) error {
+	if sd.retResolved {
+		return nil
+	}
+	sd.retResolved = true
+	switch {
+	case sd.Ret == "Int", sd.Ret == "Bool", sd.Ret == "Real", sd.Ret == "Str", strings.HasPrefix(sd.Ret, "("):
+		return nil
+	}
+	ex, err := parseSpecExpr(sd.Ret)
+	if err != nil {
+		return err
+	}
+	e2 := *env
+	if p := fx.e.tpkgs[sd.PkgPath]; p != nil {
+		e2.pkg = p
+	}
+	t, err := e2.typeExpr(ex)
+	if err != nil {
+		return fmt.Errorf("spec %s: result type: %v", sd.Name, err)
+	}
+	ls := fx.e.leaves(t)
+	if len(ls) != 1 {
+		return fmt.Errorf("spec %s: result type %v is not a single-leaf type", sd.Name, t)
+	}
+	sd.GoRet = t
+	sd.Ret = ls[0].Sort
+	return nil
+}
+
 // useSpec makes sure the spec function is declared in the current context
 func (fx *FnExec) useSpec(sd *SpecDecl) {
 	n := smtName(sd.Name)
@@ -875,7 +934,12 @@ func mentions(text, name string) bool {
 func (fx *FnExec) useAxioms(name string) {
 	for _, ax := range fx.e.cs.Axioms {
 		key := "axiom:" + ax.Name
-		if fx.c.declared[key] || !mentions(ax.Text, name) {
+		// an axiom named <spec>_<suffix> belongs to spec function <spec>
+		subject := ax.Name
+		if i := strings.Index(subject, "_"); i >= 0 {
+			subject = subject[:i]
+		}
+		if fx.c.declared[key] || subject != name {
 			continue
 		}
 		fx.c.declared[key] = true
